@@ -5,7 +5,7 @@ run must stay silent (exit 0, no VIOLATION line).  Writes benign/RESULTS.json an
 import json, os, re, subprocess, sys, tempfile, shutil, glob
 HERE = os.path.dirname(os.path.dirname(os.path.abspath(__file__)))
 want = [a.upper() for a in sys.argv[1:]]
-resf = os.path.join(HERE, 'benign', 'RESULTS.json')
+resf = os.path.join(HERE, 'benign', os.environ.get('BENIGN_RESULTS', 'RESULTS.json'))
 results = json.load(open(resf)) if os.path.exists(resf) else {}
 head = subprocess.run(['git', '-C', '/repo', 'rev-parse', '--short', 'HEAD'], capture_output=True, text=True).stdout.strip()
 # files -> checks that exercise them (besides the owner)
